@@ -166,7 +166,8 @@ class Lib:
             T[np.abs] = lambda I, a, k, n: self.b_abs(I, a, k, n)
             T[np.maximum] = lambda I, a, k, n: self.m_minmax(I, a[0], a[1], True, n)
             T[np.minimum] = lambda I, a, k, n: self.m_minmax(I, a[0], a[1], False, n)
-            T[np.float64] = lambda I, a, k, n: self.b_float(I, a, k, n)
+            T[np.float64] = lambda I, a, k, n: (self.numpy.astype(I, a[0], np.float64, n) if type(a[0]).__name__ == "NDArr" and not all(isinstance(d, int) and d == 1 for d in a[0].shape)
+                                            else self.b_float(I, a, k, n))
             T[np.isnan] = lambda I, a, k, n: self.m_isnan(I, a[0], n)
             T[np.sign] = lambda I, a, k, n: self.m_sign(I, a[0], n)
             T[np.power] = lambda I, a, k, n: self.power(I, a[0], a[1], n)
@@ -729,6 +730,8 @@ class Lib:
             return self.b_len(I, [I.lift_instance(x)], k, n)
         if x is None or isinstance(x, (SV, int, float)):
             I.fail("TypeError", f"object of type {type(x).__name__} has no len()", n)
+        if isinstance(x, LibObj):
+            raise Unsupported(f"len() of a modelled {x.kind} object")
         try:
             return len(x)
         except TypeError as ex:
@@ -1024,6 +1027,8 @@ class Lib:
             return SV(z3.If(x.t >= 0, x.t, -x.t))
         if isinstance(x, Obj):
             return I.call(I.getattr(x, "__abs__", n), [], {}, n)
+        if type(x).__name__ == "NDArr":
+            return self.numpy.np_abs(I, [x], {}, n)
         return abs(x)
 
     def b_round(self, I, a, k, n):
